@@ -72,7 +72,7 @@ theorem forward_only_selected (env : Env) (q : Question) (k : Nat) (wire : Bytes
       by_cases hr : r.reject > 0
       · simp [hr] at h
       · have hr0 : r.reject = 0 := by omega
-        simp only [hr, ↓reduceIte] at h
+        simp only [isReject, decide_eq_true_eq, hr, ↓reduceIte] at h
         cases hu : r.upstream with
         | none => simp [hu] at h
         | some u =>
